@@ -122,6 +122,11 @@ def run(ctx):
     cs = [c for c in symcalls(prog, g) if c[1].endswith("PropertySet::set")]
     ctx.check(len(cs) == 1 and cs[0][2][1] == "c:1" and "PropertyValue::I2{(internal::codepage::CodePage::id(&p2) as i16)}" in cs[0][2][2], R, "set_codepage stores I2(id as i16) under property 1", "",
               "set_codepage stores %s" % [c[2] for c in cs], g.loc(), fn=g.name)
+    if len(cs) == 1:
+        Sg2 = Sym(prog, g)
+        cond = [(e[:60], tr) for (e, tr, gg) in Sg2.bool_facts_at(cs[0][0]) if isinstance(tr, bool)]
+        ctx.check(not cond, R, "set_codepage always stores the property", "", "set_codepage stores the code page property only under the condition %s: a summary that stays on the cached page is "
+                  "saved without property 1, and an independent reader decodes its strings with another default" % cond, g.loc(), fn=g.name, key=R + "|always")
 
     R = "HDR-1"
     ctx.rule(R, "PropertySet::write: the declared section offset (48) equals the bytes emitted before the section; the section header constant 8 and the per-property "
